@@ -200,3 +200,27 @@ _mk("C15",
                "the premise is discharged for the source's pooled structs by facts regenerated on every run (a new unreset field breaks decide). Tied to the code by running histories in one process against the history-free model.",
     level_note="Three parser fields (yyParser, lastClosing, inject) are exceptions argued in the theorem's comment (written before read), not extracted; sync.Pool/GC behaviour is Go's.",
     extra_tb=[TB_FLOAT], exhaustive=False)
+
+_mk("C16",
+    ["Platypus.Properties.C16"],
+    rule="rounds under the Go race detector (harness built with -race): 2, 3, 4, 8 or 16 goroutines started together with randomised offsets, each doing 4..11 operations: parse one of 6 sources (valid and invalid) or run one of 5 shared, "
+         "once-loaded scripts (grok with scoped add_pattern, use() of two callees, loops/rename/cast/slices/default_time/replace, a failing script) on a private point; 40 rounds (quick) / 1500 (thorough); "
+         "any race report is a violation with the report as replay; every run's result (final point, error chain, probe trace) is compared with the sequential model",
+    technique="Lean 4 theorem (no run-time write to shared locations => for every schedule no conflicting accesses and every thread's state equals its run alone) + decide-checked regenerated set of shared-object writes (run-time set empty) + race-detector rounds compared with the model",
+    level_text="Kernel-checked for every schedule of an abstract access model: if steps write only locations their thread owns and read only shared or own locations, shared locations never change and each thread ends exactly as when run alone; "
+               "the premise is tied to the source by the regenerated list of assignments through syntax-tree nodes, loaded scripts and package variables (none at run time). The implementation is run under the race detector.",
+    level_note="Partial: that the extracted footprints are all of the code's shared accesses, sync.Pool's internal synchronisation and the Go memory model are outside Lean (race detector + extraction).",
+    extra_tb=[TB_FLOAT, "Go race detector, sync.Pool, Go memory model"], exhaustive=False)
+PROPS["C16"]["race"] = True
+
+_mk("C20",
+    ["Platypus.Properties.C20"],
+    rule="the built cmd/platypus binary is run on generated workspaces: 11 script sets (changing measurement, time via default_time, tags; use() of a sibling .ppl; grok/cast/drop; run-time error; check failure; syntax error; every field type; "
+         "missing use target; loops) x 6 inputs (text incl. empty and multi-line, line protocol with every field type, malformed line protocol) x {workspace, single file given with a directory path} x {json, lineprotocol} x {input, no input}; "
+         "70 runs (quick) / 1200 (thorough); the printed output must equal what the library API yields for the same scripts and input rendered with the same encoders (time masked for text input whose time the script left unset); "
+         "with no input nothing is printed; on load/run errors nothing is printed",
+    technique="Lean 4 theorem (a runner that reads the by-value point fields after the run renders the library's final point, for every script and input) + decide-checked regenerated step order of runScript + binary-vs-library correspondence",
+    level_text="Kernel-checked for every script effect and every input point: a runner of the shape init, run, reads, render prints the final point; the shape is regenerated from run.go on every run. "
+               "Script discovery, input parsing and encoders are decided by comparing the real binary with the library API on generated workspaces.",
+    level_note="Partial: cobra flag handling, influx line protocol and JSON encoders are exercised, not modelled.",
+    extra_tb=["cobra, influxdb1-client, encoding/json, zap (observed through the binary)"], exhaustive=False)
